@@ -2,6 +2,7 @@
 Lemmas about `remove_word_break_chars` and `remove_hyphen`.
 -/
 import PagexmlModel.Lemmas.Words
+import PagexmlModel.Lemmas.C17Consts
 
 namespace Pagexml.C17
 
@@ -133,15 +134,15 @@ theorem removeHyphen_spec (w : Str) (hw : w ≠ []) :
     unfold removeHyphen
     simp only [hl, hd1, hd2, hdrop, bind, Except.bind, pure, Except.pure]
     by_cases hb : hyphenSet b = true
-    · by_cases hab : ([a, b] == ['-', '-']) = true
-      · have hab' : a = '-' ∧ b = '-' := by simpa using hab
+    · by_cases hab : ([a, b] == Generated.C17.doubleHyphen) = true
+      · have hab' : [a, b] = Generated.C17.doubleHyphen := by simpa using hab
         refine ⟨p, [a, b], ?_, by simp, by simp, ?_⟩
         · simp [hb, hab]
         · intro c hc
-          simp at hc
-          rcases hc with rfl | rfl
-          · rw [hab'.1]; decide
-          · exact hb
+          rw [hab'] at hc
+          refine consts_double_hyphen_in_set (by rw [← hab']; rfl) ?_ c hc
+          rw [← hab']
+          simpa using hb
       · refine ⟨p ++ [a], [b], ?_, by simp, by simp, by simp [hb]⟩
         simp [hb, hab]
     · exact ⟨p ++ [a, b], [], by simp [hb], by simp, by simp, by simp⟩
